@@ -2,33 +2,44 @@ META = {
     'level': 'exploration',
     'engine': 'E2+E3',
     'technique': 'strategy differential: the same generated history replayed under several loading strategies, observation traces and committed rows compared',
-    'level_text': 'Each generated session history (fixed operation list) is executed on the real code under the default loading strategy and again with (a) every non-key attribute declared lazy, (b) prefetch() of every relationship on every entity query, (c) nplus1_threshold forced to 0 (batch loading always) and (d) to None (never), (e) every handle fully loaded before use (no pk-only seeds). The ordered trace of values returned by reads, the outcome of every operation and the raw committed rows must be identical; the numbers of SQL statements are reported and must differ, otherwise the run is inconclusive. Held on the generated histories only.',
+    'level_text': 'Each generated session history (fixed operation list) is executed on the real code under the default loading strategy and again with (a) every non-key attribute declared lazy, (b) prefetch() of every relationship on every entity query, (c) nplus1_threshold forced to 0 (batch loading always) and (d) to None (never), (e) every handle fully loaded before use (no pk-only seeds), (f) every row and collection loaded at the start of each session (prefetch of all relationships). In addition, for fixed relationship diagrams with a small committed population, EVERY sequence of 2 (quick) / 3 (thorough) operations, and a sample of longer ones, over an alphabet of relationship modifications and reads from both sides, plain-attribute writes/reads and whole-entity queries is executed in lock step on one engine per strategy over identical populations. The ordered trace of values returned by reads, the outcome of every operation and the raw committed rows must be identical; the numbers of SQL statements are reported and must differ, otherwise the run is inconclusive. Held on the generated histories only.',
     'level_note': 'Trusted: SQLite as the only backend; traces are canonicalised by object handle (the operation list is fixed, so handles are comparable across strategies). A history whose default run already violates another monitor (known seed finding) is excluded from the comparison and counted.',
     'rule': 'one case = one generated history x one alternative strategy; distinct = distinct (diagram, operation list, strategy); non-trivial = the history contains at least 3 judged reads and the alternative strategy issued a different number of SELECT statements than the default one',
-    'assumptions': ['SQLite only', 'single-threaded sessions', 'strategies: lazy attributes, prefetch, nplus1_threshold 0/None, fully loaded handles'],
+    'assumptions': ['SQLite only', 'single-threaded sessions', 'strategies: lazy attributes, prefetch, nplus1_threshold 0/None, fully loaded handles, everything preloaded per session'],
     'design_ref': 'DESIGN.md 2.2, 3 C23',
 }
 SHARDS = {'quick': 4, 'thorough': 16}
 SHARD_TIMEOUT = {'quick': 300, 'thorough': 1500}
 N = {'quick': 60, 'thorough': 500}
 OPS = {'quick': 30, 'thorough': 50}
-STRATEGIES = ['lazy', 'lazy_scalars', 'prefetch', 'nplus1_0', 'nplus1_none', 'loaded']
+STRATEGIES = ['lazy', 'lazy_scalars', 'prefetch', 'nplus1_0', 'nplus1_none', 'loaded', 'eager']
 WEIGHTS = {'create': 5, 'set': 8, 'setmany': 2, 'add': 6, 'remove': 4, 'assign': 2, 'clear': 1, 'delete': 3,
            'flush': 4, 'commit': 3, 'rollback': 1, 'end': 5, 'abort': 1,
            'read': 14, 'coll': 14, 'bypk': 6, 'bykey': 5, 'selectall': 5, 'selectcmp': 4, 'count': 2, 'todict': 4}
 
 
-def make_engine(spec, workdir, strategy, counts):
-    from vlib import hist
+SEED_VIA_REFS = [True]      # how handles are obtained: True = every fifth through a referring object's to-one attribute
+
+
+def configure(eng, strategy, seed_via_refs):
     from pony.orm import core
-    lazy = {'lazy': True, 'lazy_scalars': 'scalars'}.get(strategy, False)
-    eng = hist.Engine(spec, workdir, name='s_' + strategy, count=counts, lazy_all=lazy,
-                      force_load=(strategy == 'loaded'))
     eng.strategy = strategy
+    eng.seed_via_refs = seed_via_refs
     if strategy in ('nplus1_0', 'nplus1_none'):
         for cls in eng.cls.values():
             for a in cls._attrs_:
                 if isinstance(a, core.Set): a.nplus1_threshold = 0 if strategy == 'nplus1_0' else None
+
+
+def make_engine(spec, workdir, strategy, counts, prefix='s_', force_load=None):
+    from vlib import hist
+    lazy = {'lazy': True, 'lazy_scalars': 'scalars'}.get(strategy, False)
+    if force_load is None: force_load = (strategy == 'loaded')
+    eng = hist.Engine(spec, workdir, name=prefix + strategy, count=counts, lazy_all=lazy, force_load=force_load)
+    svr = SEED_VIA_REFS[0]
+    configure(eng, strategy, svr)
+    # what a classification replay needs to rebuild this engine
+    eng.replay_kw = {'lazy_all': lazy, 'post': lambda e: configure(e, strategy, svr)}
     return eng
 
 
@@ -37,9 +48,9 @@ def selects(eng):
                and (e['sql'] or '').lstrip().upper().startswith('SELECT'))
 
 
-def run_one(spec, ops, workdir, strategy, counts):
+def run_one(spec, ops, workdir, strategy, counts, force_load=None):
     from vlib import hops
-    eng = make_engine(spec, workdir, strategy, counts)
+    eng = make_engine(spec, workdir, strategy, counts, force_load=force_load)
     outs = []
     try:
         outs = hops.run_history(eng, ops)
@@ -117,32 +128,166 @@ def run(ctx):
                              'selects_default': s0, 'selects_alternative': s1, 'ops': ops[:8]} if compared <= 3 else None)
             d = compare(base, other)
             if d is None: continue
-            # a difference that the alternative run's own monitors explain by the known unloaded-seed finding
-            known = False
-            if strat == 'lazy':
-                # deviation replay: lazy declared on scalar attributes only.  If the difference disappears, it is the
-                # known 'reference not loaded when modified -> reverse side not maintained' mechanism, which a lazy
-                # relationship attribute triggers on every object
-                alt2 = run_one(spec, ops, workdir, 'lazy_scalars', {})
-                ctx.count('deviation_replays.lazy_scalars')
-                if compare(base, alt2) is None:
-                    ctx.finding('C23-UNLOADED-SEED-REVERSE-NOT-MAINTAINED',
-                                {'spec': spec, 'ops': ops, 'strategy': strat, 'difference': d, 'deviation': 'lazy on scalars only agrees'})
-                    known = True
-            if not known and other[0].reports:
-                from vlib import hfindings
-                fid = hfindings.classify(ctx.pid, other[0].reports[0], other[0], ops)
-                if fid:
-                    ctx.finding(fid, {'spec': spec, 'ops': ops, 'strategy': strat, 'difference': d})
-                    known = True
-            if not known:
-                ctx.violation({'spec': spec, 'ops': ops, 'strategy': strat, 'difference': d,
-                               'alt_reports': [r.as_dict() for r in other[0].reports[:2]], 'alt_errors': other[0].errlog[-3:]},
-                              mechanism='strategy.%s.%s' % (strat, d['kind']))
+            fid, why = classify_difference(ctx, spec, ops, strat, workdir, base, other)
+            w = {'spec': spec, 'ops': ops, 'strategy': strat, 'difference': d,
+                 'alt_reports': [r.as_dict() for r in other[0].reports[:2]], 'alt_errors': other[0].errlog[-3:]}
+            if fid: w['classified_by'] = why; ctx.finding(fid, w)
+            else: ctx.violation(w, mechanism='strategy.%s.%s' % (strat, d['kind']))
+    small_scope_diff(ctx)
     ctx.extra['strategies'] = STRATEGIES
     ctx.inconclusive_if(compared and differing * 2 < compared,
                         'query counts differed in only %d of %d comparisons: strategies not exercised' % (differing, compared))
     ctx.floor('observations_compared', 2000)
+
+
+SMALL = {'templates': ['m2m', 'o2m_opt', 'o2o_opt', 'rich', 'self', 'inherit'],
+         'budget': {'quick': 2400, 'thorough': 40000},
+         'plan': {'quick': [(2, True), (3, False)], 'thorough': [(3, True), (4, False)]}}
+
+
+def classify_difference(ctx, spec, ops, strat, workdir, base, other):
+    """known mechanism behind a difference between the default run and an alternative strategy, or (None, None).
+    Targeted deviation replay: the same history under both strategies, with exactly those objects loaded whose
+    not-loaded many-to-one reference is about to be reassigned / that are about to be deleted while not loaded,
+    right before exactly those operations.  Only if such loads really happened and the two runs then agree is the
+    difference the known 'reverse side of an unloaded reference is not maintained' mechanism."""
+    c0, c1 = {}, {}
+    b = run_one(spec, ops, workdir, 'default', c0, force_load='targeted')
+    o = run_one(spec, ops, workdir, strat, c1, force_load=True if strat == 'loaded' else 'targeted')
+    ctx.count('deviation_replays.targeted')
+    if (c0.get('targeted_loads', 0) + c1.get('targeted_loads', 0)) and compare(b, o) is None:
+        return 'C23-UNLOADED-SEED-REVERSE-NOT-MAINTAINED', 'targeted deviation replay agrees (%d targeted loads)' % (c0.get('targeted_loads', 0) + c1.get('targeted_loads', 0))
+    from vlib import hfindings
+    for run, which in ((other, 'alternative'), (base, 'default')):
+        if run[0].reports:
+            fid = hfindings.classify(ctx.pid, run[0].reports[0], run[0], ops)
+            if fid: return fid, 'monitor report of the %s run' % which
+    return None, None
+
+
+def small_scope_diff(ctx):
+    """every operation sequence up to the planned length over a relationship-focused alphabet (relationship
+    modifications and reads from both sides plus plain-attribute writes/reads), executed in lock step on one engine
+    per loading strategy over identical populations; outcomes, observation traces and committed rows compared"""
+    import random, itertools
+    from vlib import hschema, hsmall, hops, hist
+    from vlib.common import fp
+    workdir = ctx.tmp()
+    plan = SMALL['plan'][ctx.tier]
+    strategies = ['default'] + STRATEGIES
+    templates = [t for t in hschema.fixed_templates() if t['name'] in SMALL['templates']]
+    jobs = []
+    for t in templates:
+        eng = hist.Engine(t, workdir, name='ssd_probe_' + t['name'])
+        try:
+            hsmall.populate(eng, random.Random('ssd/%s/%d' % (t['name'], ctx.seed)))
+            fs = [f for f in hsmall.focuses(eng) if f[0] == 'rel']
+        finally:
+            eng.close()
+        for f in fs: jobs.append((t, f))
+    per_job = max(40, SMALL['budget'][ctx.tier] // max(1, len(jobs)))
+    total = 0; reported = set()
+    for ji, (t, f) in enumerate(jobs):
+        if ji % ctx.nshards != ctx.shard: continue
+        engs = {}
+        SEED_VIA_REFS[0] = 'always'     # small scope: every object is first seen as an unloaded reference when possible
+        try:
+            pops = {}
+            for st in strategies:
+                engs[st] = make_engine(t, workdir, st, {}, prefix='ssd_%s_%d_' % (t['name'], ji))
+                pops[st] = hsmall.populate(engs[st], random.Random('ssd/%s/%d' % (t['name'], ctx.seed)))
+            alph = {st: hsmall.rel_alphabet(engs[st], f[1], f[2], scalars=True) for st in strategies}
+            if any(pops[st] != pops['default'] or alph[st] != alph['default'] for st in strategies):
+                # populations must be identical for the comparison to mean anything
+                ctx.count('smallscope.population_differs_between_strategies'); continue
+            alphabet = alph['default']
+            if len(alphabet) < 3: continue
+            base_rows = {st: hsmall.dump_sql(engs[st].file) for st in strategies}
+            base_model = {st: engs[st].committed.copy() for st in strategies}
+            if any(hsmall.norm_rows(base_rows[st]) != hsmall.norm_rows(base_rows['default']) for st in strategies):
+                ctx.count('smallscope.population_rows_differ_between_strategies'); continue
+            ctx.count('smallscope.focuses'); ctx.count('smallscope.alphabet_size', len(alphabet))
+            def sequences():
+                for L, want_all in plan:
+                    if want_all or len(alphabet) ** L <= per_job:
+                        ctx.count('smallscope.exhaustive_length_%d' % L)
+                        for seq in itertools.product(range(len(alphabet)), repeat=L): yield seq
+                    else:
+                        ctx.count('smallscope.sampled_length_%d' % L)
+                        r2 = random.Random('ssd-sample/%s/%s/%d/%d' % (t['name'], f, ctx.seed, L))
+                        for _ in range(per_job): yield tuple(r2.randrange(len(alphabet)) for _ in range(L))
+            def variants():
+                for seq in sequences():
+                    ops = [alphabet[i] for i in seq] + [{'op': 'commit'}, {'op': 'end'}]
+                    yield seq, ops
+                    # a second variant fetches the objects passed as arguments at the start of the session, so that no
+                    # lookup (and the flush a lookup performs) happens between a modification and a later operation
+                    def argsof(o):
+                        return ([o['val']['ref']] if isinstance(o.get('val'), dict) and o['val'].get('ref') else []) + \
+                               list(o.get('items') or []) + ([o['item']] if o.get('item') else [])
+                    late = sorted({x for j, o in enumerate(ops) for x in argsof(o) if any(p['op'] in hops.MOD_OPS for p in ops[:j])})
+                    if late: yield seq + ('pre',), [{'op': 'obtain', 'oids': late, 'via': 0}] + ops
+            for seq, ops in variants():
+                res = {}
+                for st in strategies:
+                    e = engs[st]
+                    n0 = len(e.reports)
+                    outs = hsmall.run_sequence(e, ops)
+                    sel = selects(e)
+                    res[st] = (outs, list(e.trace), e.reports[n0:], bool(e.diverged), sel)
+                rows = {}
+                def rows_of(st):
+                    if st not in rows: rows[st] = hsmall.norm_rows(hsmall.dump_sql(engs[st].file))
+                    return rows[st]
+                total += 1
+                b = res['default']
+                reads = len(b[1])
+                # loud errors are not judged (conflict timing is free); a default run stopped by a monitor report IS
+                # compared: if another strategy runs the same sequence without that report, the strategy changed the data
+                clean = not any(o.startswith('raised') for o in b[0])
+                if not clean: ctx.count('smallscope.default_run_has_errors_not_compared')
+                for st in STRATEGIES:
+                    o = res[st]
+                    ctx.count('smallscope.compared.' + st)
+                    ctx.count('observations_compared', reads)
+                    if o[4] != b[4]: ctx.count('smallscope.select_count_differs.' + st)
+                    ctx.case(fp([t['name'], f, seq, st]), nontrivial=(reads >= 1 and o[4] != b[4]),
+                             sample={'template': t['name'], 'focus': list(map(str, f)), 'strategy': st, 'ops': ops} if total <= 2 and st == 'lazy' else None)
+                    if not clean: continue      # conflict timing is free and loud errors are not judged
+                    d = None
+                    if o[0] != b[0]:
+                        i = next((i for i, (x, y) in enumerate(zip(b[0], o[0])) if x != y), min(len(b[0]), len(o[0])))
+                        d = {'kind': 'outcome_differs', 'step': i, 'default': b[0][i:i + 1], 'alternative': o[0][i:i + 1]}
+                    elif o[1] != b[1]:
+                        i = next((i for i, (x, y) in enumerate(zip(b[1], o[1])) if x != y), min(len(b[1]), len(o[1])))
+                        d = {'kind': 'observation_differs', 'index': i, 'default': b[1][i:i + 1], 'alternative': o[1][i:i + 1]}
+                    elif rows_of(st) != rows_of('default'):
+                        d = {'kind': 'committed_rows_differ'}
+                    if d is None: continue
+                    key = (t['name'], f, st, d['kind'])
+                    if key in reported: continue
+                    reported.add(key)
+                    full = pops['default'] + ops
+                    views = []
+                    for st2 in ('default', st):
+                        # classification needs the configuration of that run plus its reports of this sequence
+                        v = type('EngView', (), {})()
+                        v.reports = res[st2][2]; v.counts = engs[st2].counts; v.spec = engs[st2].spec
+                        v.stop_on_taint = engs[st2].stop_on_taint; v.replay_kw = engs[st2].replay_kw
+                        views.append((v,))
+                    fid, why = classify_difference(ctx, t, full, st, workdir, views[0], views[1])
+                    w = {'spec': t, 'ops': full, 'sequence': ops, 'strategy': st, 'difference': d, 'mode': 'small-scope',
+                         'alt_reports': [r.as_dict() for r in o[2][:2]], 'default_reports': [r.as_dict() for r in b[2][:2]]}
+                    if fid: w['classified_by'] = why; ctx.finding(fid, w)
+                    else: ctx.violation(w, mechanism='smallscope.strategy.%s.%s' % (st, d['kind']))
+                for st in strategies:
+                    hsmall.restore_baseline(engs[st], base_rows[st], base_model[st])
+        finally:
+            SEED_VIA_REFS[0] = True
+            for e in engs.values():
+                try: e.close()
+                except Exception: pass
+    ctx.count('smallscope.sequences', total)
 
 
 def replay(ctx, witness):
